@@ -139,6 +139,34 @@ func c05case(s *Sexp) string {
 		return sc.run(choices, 200)
 	case "qstress":
 		return qstressCase(s)
+	case "qpre":
+		// sequential calls, the `…c` operations with a context that is already cancelled when the call is
+		// made: a call that can complete without waiting still completes; one that would have to wait
+		// returns the context error and has no effect
+		var cfg *Sexp
+		var ops []*Sexp
+		for _, x := range s.Args() {
+			switch x.Head() {
+			case "cfg":
+				cfg = x
+			case "ops":
+				ops = x.List[1:]
+			}
+		}
+		sub := newC05subject(cfg)
+		dead, cancel := context.WithCancel(context.Background())
+		cancel()
+		outs := []string{}
+		for _, op := range ops {
+			h := op.Head()
+			ctx := context.Background()
+			if strings.HasSuffix(h, "c") && h != "recv" {
+				ctx = dead
+				op = &Sexp{IsLst: true, List: append([]*Sexp{{Atom: strings.TrimSuffix(h, "c")}}, op.List[1:]...)}
+			}
+			outs = append(outs, sub.exec(ctx, 0, op))
+		}
+		return strings.Join(outs, ";") + " | " + sub.final()
 	case "qprobe":
 		switch s.List[1].Atom {
 		case "wait":
